@@ -577,6 +577,7 @@ where
                 sponge,
                 None,
             )?;
+        assert_eq!(proof.len(), combined_queries.len());
         let check_time =
             start_timer!(|| format!("Checking {} evaluation proofs", combined_comms.len()));
         let g = vk.g.into_group();
